@@ -8,7 +8,8 @@ Request line (history):  `<tok> <tok> …` optionally followed by TAB and the im
 Answer: one token per top-level op: `<indent>:<hex s>` (`:<old>` for `s`, `:<hex sub.s>:<sub indent>` for `]`),
   `P` (and stop) at a panic.  With an implementation answer supplied, TAB `spec=` and one verdict per
   observed token: the C25 monitors (`SourceSpec.monitor`) evaluated on the implementation's outputs.
-Request line (literal, metamorphic):  `lit` TAB hex a TAB hex b TAB keep-mask(0/1 per char of a)  →  `ok`/`fail`
+Request line (literal, metamorphic):  `lit` TAB `<indent>:<hex s>` TAB `<indent>:<hex s>`  →  `ok`/`fail`
+  (`SourceSpec.literalPairOk` on the observations of the original and the neutralised run)
 Request line (str glue):  `str` TAB `<fn> <hex> [<hex>]`  →  as `text-run ruststr`. -/
 open Witverif.Text Drivers
 
@@ -161,11 +162,11 @@ def handleStr (req : String) : String :=
 
 def handle (line : String) : String :=
   match line.splitOn "\t" with
-  | ["lit", a, b, keep] =>
-    match hexToChars a, hexToChars b with
-    | some a, some b =>
-      if SourceSpec.literalRegionOk a b (keep.toList.map (· == '1')) then "ok" else "fail"
-    | _, _ => "bad-op"
+  | ["lit", a, b] =>
+    match parseObs a, parseObs b with
+    | some (some a, _), some (some b, _) => if SourceSpec.literalPairOk a b then "ok" else "fail"
+    | some (none, _), some (none, _) => "ok"
+    | _, _ => "fail"
   | ["str", req] => handleStr req
   | _ => handleHistory line
 
